@@ -329,8 +329,9 @@ where
                     }
                 }
                 _ => {
+                    // not `UnexpectedEof`: data set readers take that kind for the end of the data
                     return Err(std::io::Error::new(
-                        std::io::ErrorKind::UnexpectedEof,
+                        std::io::ErrorKind::InvalidData,
                         "Unexpected PDU type",
                     ));
                 }
@@ -720,8 +721,9 @@ pub mod non_blocking {
                         }
                     }
                     _ => {
+                        // not `UnexpectedEof`: data set readers take that kind for the end of the data
                         return Poll::Ready(Err(std::io::Error::new(
-                            std::io::ErrorKind::UnexpectedEof,
+                            std::io::ErrorKind::InvalidData,
                             "Unexpected PDU type",
                         )));
                     }
